@@ -350,6 +350,11 @@ def run(ctx):
         if g["kind"] == "PANIC" and any(f.get("explains_panic_frame") and f["explains_panic_frame"] in decode_hex_fields(i) for f in known_for("C06")):
             stats["crashes_explained_by_known_findings"] = stats.get("crashes_explained_by_known_findings", 0) + 1
             continue
+        if g["kind"] == "OK" and any(k == 9 for k, _ in g["acts"].values()):
+            cells = sorted(c for c, (k, _) in g["acts"].items() if k == 9)
+            ctx.add_violation("the table of an accepted grammar still holds several actions in one entry (a conflict that was neither reported nor resolved)",
+                              {"input": text, "input_hex": hx(text.encode()), "entries": ["ACTION[%d, %s]" % (st, g["tnames"][a] if a < len(g["tnames"]) else "$") for st, a in cells][:10]})
+            continue
         if g["kind"] in ("CRASH", "PANIC", "NILNIL", "CONFLICT+TABLE"):
             ctx.add_violation("LALRParsingTable crashed or returned both a table and an error", {"input": text, "input_hex": hx(text.encode()), "implementation": decode_hex_fields(i)[:600]})
             continue
